@@ -81,6 +81,9 @@ def traced_main(cfg_path, out):
         ev("CheckDatasets", ok=True)
 
     def w_run(machine, l, r, cfg):
+        for side, ds in (("left", l), ("right", r)):
+            box[f"in_{side}_disp"] = ([float(ds["disparity"].sel(band_disp="min").min()), float(ds["disparity"].sel(band_disp="max").max())]
+                                      if "disparity" in ds.data_vars else None)
         left, right = orig["run"](machine, l, r, cfg)
         box["left"], box["right"] = left.copy(deep=True), right.copy(deep=True)
         has_val = any(k.split(".")[0] == "validation" for k in cfg["pipeline"])
